@@ -3,6 +3,7 @@ package checks
 import (
 	"context"
 	"fmt"
+	"github.com/prometheus/client_golang/prometheus"
 	"runtime/debug"
 	"strings"
 	"time"
@@ -29,8 +30,45 @@ type World struct {
 	UDP *env.UDPFront
 	// Runaway (UDP worlds): the library kept retrying without end and was
 	// stopped by cancelling its context.
-	Runaway string
-	sleeps  int
+	Runaway  string
+	sleeps   int
+	sentBase int
+}
+
+// transmitted reads the library's own count of datagrams written to sockets
+// (process-wide histogram bmc_transport_transmit_bytes).
+func transmitted() int {
+	mfs, err := prometheus.DefaultGatherer.Gather()
+	if err != nil {
+		return -1
+	}
+	for _, mf := range mfs {
+		if mf.GetName() == "bmc_transport_transmit_bytes" {
+			n := 0
+			for _, m := range mf.GetMetric() {
+				n += int(m.GetHistogram().GetSampleCount())
+			}
+			return n
+		}
+	}
+	return 0
+}
+
+// quiesce waits until the environment has read every datagram the library has
+// written (a call may return on a datagram that was already waiting in the
+// socket while its last transmission is still on its way), so that what
+// happens next is ordered after it, as in the in-memory model.
+func (w *World) quiesce() {
+	if w.UDP == nil {
+		return
+	}
+	deadline := time.Now().Add(2 * time.Second)
+	for time.Now().Before(deadline) {
+		if w.UDP.Seen() >= transmitted()-w.sentBase {
+			return
+		}
+		time.Sleep(200 * time.Microsecond)
+	}
 }
 
 // udpAttemptTimeout is the per-attempt timeout of worlds running over a real
@@ -48,6 +86,7 @@ func newWorldUDP(cfg ref.Config, ch *env.Chooser) (*World, error) {
 		return nil, err
 	}
 	w.UDP = f
+	w.sentBase = transmitted()
 	w.Ctx, w.Cancel = newCtx()
 	backoff.VerifSleep = func(ctx context.Context, d time.Duration) bool {
 		// back-off waits are skipped; a retry loop that neither ends nor reaches
@@ -80,6 +119,7 @@ func newWorldUDP(cfg ref.Config, ch *env.Chooser) (*World, error) {
 // Close releases the sockets of a UDP world (no-op otherwise).
 func (w *World) Close() {
 	if w.UDP != nil {
+		w.quiesce()
 		w.Conn.Close()
 		w.UDP.Close()
 	}
@@ -89,6 +129,7 @@ func (w *World) Close() {
 func (w *World) beginOp() {
 	if w.UDP != nil {
 		w.sleeps = 0
+		w.quiesce()
 		w.UDP.Locked(w.T.BeginOp)
 		return
 	}
